@@ -454,7 +454,10 @@ func (e *Engine) lemmaObligations(prop string) ([]*Obligation, string) {
 	return out, errs
 }
 
-var propLevels = map[string]propLevel{}
+var propLevels = map[string]propLevel{
+	"C02": {"other", "per-function proof obligations (writer productions, Omit, header and block layout) discharged by SMT; their composition into 'an independent reader decodes identically' is a written argument (DESIGN.md), not machine checked"},
+	"C03": {"other", "per-function proof obligations (reader productions for every legal serialisation choice) discharged by SMT; the induction over codec trees to 'the datum's values' is a written argument (DESIGN.md), not machine checked"},
+}
 
 var globalTrusted = []string{
 	"the VC generator govc itself (its encoding of go/ssa semantics for go1.24/amd64) and the SMT solvers",
